@@ -151,6 +151,7 @@ bool recv_exact(NativeSocket socket,
 ControlResponse parse_response(NativeSocket socket, const ControlTransferProgress* progress) {
     ControlResponse response{};
     std::string line;
+    std::string last_field;
     bool status_seen = false;
     std::optional<std::size_t> payload_length;
 
@@ -158,6 +159,16 @@ ControlResponse parse_response(NativeSocket socket, const ControlTransferProgres
         if (line.empty()) {
             break;
         }
+        if (line.front() == ' ') {
+            // continuation of a multi-line value (see ControlServer send_response)
+            if (!last_field.empty()) {
+                auto& value = response.fields[last_field];
+                value.push_back('\n');
+                value.append(line, 1, std::string::npos);
+            }
+            continue;
+        }
+        last_field.clear();
         const auto pos = line.find(':');
         if (pos == std::string::npos) {
             continue;
@@ -182,6 +193,7 @@ ControlResponse parse_response(NativeSocket socket, const ControlTransferProgres
             }
         } else {
             response.fields[key] = value;
+            last_field = key;
         }
     }
 
